@@ -137,3 +137,33 @@ void h_json_write_read(void) {
   for (int k = 0; k < 4; k++) if (k < W) OBL(got[k] == in_b[k], "json_roundtrip.value: string->json (json->string s) == s");
   REACH();
 }
+
+/* JSON numbers: json_read_number consumes the whole numeric token of RFC 8259 section 6
+ *   [-] int [ . frac ] [ (e|E) [+|-] digits ]
+ * (which is also everything json_write_flonum's "%.*G" can emit).  The token shape is a constant of the instance, the digits
+ * are symbolic; the arithmetic (pow, the double accumulation) is not specified here - only that nothing of the token is left
+ * unread (a reader that stops at the exponent returns 1.5 for "1.5E+10") and that the kind of the result is right. */
+#ifndef NUMSHAPE
+#define NUMSHAPE 0     /* bit 0: fraction, bit 1: exponent, bit 2: upper-case E, bits 3-4: exponent sign (0 none, 1 '+', 2 '-'), bit 5: leading '-' */
+#endif
+double pow(double x, double y) { double r; return r; }          /* unspecified: the value is not the subject of this group */
+double fabs(double x) { return x < 0 ? -x : x; }               /* havoc_keep gives every body-less function an arbitrary result, libc included: fabs is defined here */
+static struct vm_flo_t flo_token;
+sexp sexp_make_flonum (sexp ctx, double f) { flo_token.h.tag = SEXP_FLONUM; flo_token.value = f; return (sexp)&flo_token; }
+unsigned char in_nd[6];
+void h_json_number(void) {
+  int n = 0;
+  for (int k = 0; k < 6; k++) { in_nd[k] = nondet_uchar(); __CPROVER_assume(in_nd[k] <= 9); }
+  if (NUMSHAPE & 32) buf[n++] = '-';
+  buf[n++] = '1' + (in_nd[0] % 9); buf[n++] = '0' + in_nd[1];
+  if (NUMSHAPE & 1) { buf[n++] = '.'; buf[n++] = '0' + in_nd[2]; buf[n++] = '0' + in_nd[3]; }
+  if (NUMSHAPE & 2) { buf[n++] = (NUMSHAPE & 4) ? 'E' : 'e'; if (((NUMSHAPE >> 3) & 3) == 1) buf[n++] = '+'; if (((NUMSHAPE >> 3) & 3) == 2) buf[n++] = '-'; buf[n++] = '0' + in_nd[4]; buf[n++] = '0' + in_nd[5]; }
+  int toklen = n;
+  buf[n++] = ','; buf[n] = 0;
+  vm_ctx_obj.h.tag = SEXP_CONTEXT; verif_register(&vm_ctx_obj); vm_ctx_obj.saves = NULL;
+  pt.tag = SEXP_IPORT; pt.openp = 1; pt.buf = buf; pt.size = n; pt.offset = 0; pt.stream = NULL; pt.name = SEXP_FALSE; verif_register(&pt);
+  sexp r = json_read_number((sexp)&vm_ctx_obj, NULL, (sexp)&pt);
+  OBL(pt.offset == (unsigned long)toklen, "json_number.consumes: the whole numeric token is read (fraction AND exponent, e or E), the delimiter is left in the port");
+  OBL((NUMSHAPE & 3) ? (r == (sexp)&flo_token) : sexp_fixnump(r), "json_number.kind: an integer token reads as an exact integer, a token with fraction or exponent as a flonum");
+  REACH();
+}
